@@ -39,7 +39,7 @@ func (r *VDRKeyResolver) resolvePublicKey(issuerDID, keyID string) (*verifier.Pu
 
 	for _, verifications := range docResolution.DIDDocument.VerificationMethods() {
 		for _, verification := range verifications {
-			if strings.Contains(verification.VerificationMethod.ID, keyID) &&
+			if matchesKeyID(issuerDID, verification.VerificationMethod.ID, keyID) &&
 				verification.Relationship != did.KeyAgreement {
 				return &verifier.PublicKey{
 					Type:  verification.VerificationMethod.Type,
@@ -51,6 +51,22 @@ func (r *VDRKeyResolver) resolvePublicKey(issuerDID, keyID string) (*verifier.Pu
 	}
 
 	return nil, fmt.Errorf("public key with KID %s is not found for DID %s", keyID, issuerDID)
+}
+
+// matchesKeyID tells whether a verification method id names exactly the requested key. A key id that is a full DID URL
+// must be that id; a bare (or '#'-prefixed) fragment must equal the fragment of the id. A substring test lets "key-1"
+// select "key-11" and an empty key id select any key.
+func matchesKeyID(issuerDID, vmID, keyID string) bool {
+	if strings.HasPrefix(vmID, "#") {
+		vmID = issuerDID + vmID
+	}
+
+	i := strings.Index(keyID, "#")
+	if i > 0 {
+		return vmID == keyID
+	}
+
+	return vmID[strings.LastIndex(vmID, "#")+1:] == keyID[i+1:]
 }
 
 // PublicKeyFetcher returns Public Key Fetcher via DID resolution mechanism.
